@@ -492,7 +492,7 @@ fn thread_body(t: usize, d: Dispatch, mine: Vec<(usize, Value)>, sync: bool) {
                 let taken = SLOTS.lock().unwrap()[slot].take();
                 match taken {
                     Some((sp, u)) => {
-                        if ENTERED_ANY.lock().unwrap().contains(&u) {
+                        if ENTERED_ANY.lock().unwrap().contains(&u) && finding_open("F13") {
                             SLOTS.lock().unwrap()[slot] = Some((sp, u));
                             false
                         } else {
